@@ -197,6 +197,55 @@ fn c02_strategy(ctx: &Ctx) -> BoxedStrategy<SeqCase> {
     .boxed()
 }
 
+/// single-source operators over a hot source whose subscriber pushes further items into that
+/// source from inside its callbacks: the operator sees the items in the order in which they
+/// arrive (the re-entrant one in the middle of the delivery of the one that caused it) and
+/// must apply its definition to that sequence
+fn c02_reentrant_strategy(ctx: &Ctx) -> BoxedStrategy<SeqCase> {
+  let _ = ctx;
+  // Only operators that never end the stream by themselves: for those the definition fixes
+  // the outcome (their state must reflect an item before the item's result is handed on).
+  // In which order an operator that ends early (take, all, first ...) emits its last item and
+  // cuts its source off is its own business, and decides what a re-entrant item meets.
+  let op = prop_oneof![
+    (0i64..3).prop_map(|k| Op::Map(MapF::Add(k))),
+    prop_oneof![Just(Pred::Even), (0i64..3).prop_map(Pred::Ne), Just(Pred::True)].prop_map(Op::Filter),
+    (0usize..3).prop_map(Op::Skip),
+    prop_oneof![(0i64..3).prop_map(Pred::Lt), Just(Pred::Even)].prop_map(Op::SkipWhile),
+    Just(Op::Distinct),
+    prop_oneof![Just(crate::val::Fold::Add), Just(crate::val::Fold::Max)].prop_map(Op::Scan),
+    Just(Op::Tap),
+  ];
+  let chain = prop::collection::vec(op, 1..=3).prop_map(|ops| {
+    let mut n = Node::Src(0, Src::Hot(0));
+    for op in ops {
+      n = Node::Un(op, Box::new(n));
+    }
+    n.renumber();
+    n
+  });
+  let react = (0usize..4, 0i64..4).prop_map(|(at, v)| Reaction { at, what: React::Emit(0, Ev::N(v)) });
+  (chain, gen::script_wf(5, 1), prop::collection::vec(react, 1..=2), 0u64..4)
+    .prop_map(|(root, script, reactions, hash_seed)| {
+      let mut actions = vec![Action::Subscribe(0)];
+      actions.extend(script.into_iter().map(|e| Action::Emit(0, e)));
+      SeqCase {
+        case: Case { root, hots: vec![HotKind::Harness], hot_illformed: false, conn: None, conn_take: None, recorders: vec![reactions], actions },
+        hash_seed,
+      }
+    })
+    .boxed()
+}
+
+fn c02_reentrant_check(_ctx: &Ctx, c: &SeqCase) -> Report {
+  let out = diff(c, DiffOpts::default());
+  let mut rep = out.rep;
+  if let Some(r) = &out.real {
+    rep.nontrivial = !r.log.reactions_fired.is_empty();
+  }
+  rep
+}
+
 fn c02_check(_ctx: &Ctx, c: &SeqCase) -> Report {
   let out = diff(c, DiffOpts { check_tap: true, check_factories: true, ..Default::default() });
   let mut rep = out.rep;
@@ -883,7 +932,10 @@ pub fn properties() -> Vec<Property> {
       id: "C02",
       rule: "cases = one source (cold script of 0..8 items over -3..6 ending in complete / error / silence, or a creation function) under a chain of 1..4 (thorough 6) single-source operators with parameters 0..5 and functions from the fixed family; oracle = exact trace equality with the reference interpreter (+ tap log, defer/start factory calls); non-trivial = chain length >= 2 or a boundary parameter (0, 1, len-1, len, len+1) or an empty / erroring / silent input",
       assumptions: vec!["reference interpreter harness/src/model.rs with the conventions of DESIGN.md 2.5", "take(0) follows the crate (completes at the first item)"],
-      subs: vec![mk_sub("chains", (2000, 40_000), c02_strategy, c02_check)],
+      subs: vec![
+        mk_sub("chains", (2000, 40_000), c02_strategy, c02_check),
+        mk_sub("reentrant_source", (600, 12_000), c02_reentrant_strategy, c02_reentrant_check),
+      ],
     },
     Property {
       id: "C03",
